@@ -102,10 +102,14 @@ def mergeAll (chain : Nat → Nat) : Nat → List Bridge → List Bridge
 def setRange (sec : List SS) (lo hi : Nat) (ss : SS) : List SS :=
   sec.mapIdx (fun k s => if lo ≤ k && k ≤ hi && s != .strand then ss else s)
 
+def minL (l : List Nat) : Nat := l.foldl min (front l)
+def maxL (l : List Nat) : Nat := l.foldl max (front l)
+
+/-- every ladder marks its two strands from the smallest to the largest member (after bulge merging the deques need not be monotonic) -/
 def markBridges (sec : List SS) (bs : List Bridge) : List SS :=
   bs.foldl (fun sec b =>
     let ss := if b.is.length > 1 then SS.strand else SS.bridge
-    setRange (setRange sec (front b.is) (back b.is) ss) (front b.js) (back b.js) ss) sec
+    setRange (setRange sec (minL b.is) (maxL b.is) ss) (minL b.js) (maxL b.js) ss) sec
 
 def betaSheets (B : Nat → Nat → Bool) (chain : Nat → Nat) (skip : Nat → Bool) (n : Nat) : List SS :=
   let bs := sortBridges (collect B chain skip n)
